@@ -1,6 +1,7 @@
 CONSTANTS Urls <- UrlsC
           Texts <- TextsC
           Cfgs <- CfgsC
+          IdentsAccumulate = FALSE
           ForgetIdentRecord = TRUE
           ConfigRebuilds = TRUE
           MaxMsgs = 3
